@@ -1,0 +1,6 @@
+//go:build !verif
+
+package rpc
+
+// verifWrapTransport is the identity without the verif build tag.
+func verifWrapTransport(t Transport) Transport { return t }
